@@ -143,7 +143,7 @@ func main() {
 		os.Exit(0)
 	}
 	exit := 0
-	fb := &fallback{repo: *repo, verif: *verif}
+	fb := &fallback{repo: *repo, verif: *verif, second: &fallback{repo: *repo, verif: *verif, tailDup: true}}
 	for _, id := range ids {
 		code := runOne(p, fb, id, *tier, *out, known, floors, seed, t0, replayRule, replayConstruct)
 		if code == 1 || (code == 2 && exit == 0) {
@@ -162,6 +162,8 @@ type fallback struct {
 	tried       bool
 	prog        *Prog
 	err         error
+	tailDup     bool      // build the second-chance view (continuations copied to the exits of flattened helpers)
+	second      *fallback // consulted when the first view does not pass either
 }
 
 func (fb *fallback) get() *Prog {
@@ -183,7 +185,9 @@ func (fb *fallback) get() *Prog {
 			}
 		}
 	}
+	viewTailDup = fb.tailDup
 	overlay, steps, err := buildInlinedOverlay(fb.repo, knownFns, 40)
+	viewTailDup = false
 	if err != nil {
 		fb.err = err
 		return nil
@@ -290,6 +294,26 @@ func runOne(p *Prog, fb *fallback, id, tier, verif string, known *KnownFile, flo
 			resetInterpMemo()
 			if pan2 == nil {
 				v2 := c2.verdict(known, floors)
+				if v2 != 0 && fb.second != nil {
+					// the same program once more, with the continuation behind each flattened helper copied to the
+					// helper's exits (values merged from constants become the constants again)
+					if p3 := fb.second.get(); p3 != nil {
+						tailDupUsed := false
+						for _, st := range p3.InlineSteps {
+							if st.Kind == "tail-duplication" {
+								tailDupUsed = true
+							}
+						}
+						if tailDupUsed {
+							c3, pan3, _ := runRules(p3, id, tier)
+							theProg = p
+							resetInterpMemo()
+							if pan3 == nil && c3.verdict(known, floors) == 0 {
+								c2, v2, p2 = c3, 0, p3
+							}
+						}
+					}
+				}
 				if v2 != 0 && !(v == 2 && v2 == 1) {
 					fmt.Printf("   note: %s does not pass on the helper-inlined view either (%d transformation(s)); reporting the tree as written. On the view:\n", id, len(p2.InlineSteps))
 					for _, st := range p2.InlineSteps {
